@@ -83,8 +83,79 @@ def multifile_case(idx, payload):
     return res
 
 
+EXOTIC = ["\x0c", "\x0b", "\x1c", "\x1d", "\x1e", "\x85", "\u2028", "\u2029", "\xa0", "\u3000", "\ufeff", "\t", "\\n", "\x7f"]
+
+
+def pybind_from_disk(text, submodule):
+    """PybindWrapper.wrap / wrap_submodule reading the interface file from DISK (the way the script and CMake use it)"""
+    import os
+    import shutil
+    import tempfile
+    from common import classify_exc
+    from gtwrap.pybind_wrapper import PybindWrapper
+    d = tempfile.mkdtemp(prefix="verif_c12d_")
+    cwd = os.getcwd()
+    try:
+        src = os.path.join(d, "iface.i")
+        with open(src, "w", encoding="utf-8", newline="") as f:
+            f.write(text)
+        w = PybindWrapper(module_name="m", top_module_namespaces=[''], use_boost_serialization=False, ignore_classes=[],
+                          module_template=streams.TPL_MIN)
+        try:
+            if submodule:
+                os.chdir(d)
+                w.wrap_submodule(src)
+                return ("ok", open(os.path.join(d, "iface.cpp"), encoding="utf-8").read())
+            w.wrap([src], os.path.join(d, "out.cpp"))
+            return ("ok", open(os.path.join(d, "out.cpp"), encoding="utf-8").read())
+        except Exception as e:  # noqa
+            return ("err", classify_exc(e))
+    finally:
+        os.chdir(cwd)
+        shutil.rmtree(d, ignore_errors=True)
+
+
+def disk_case(idx, payload):
+    """interface files READ FROM DISK by the generators, whose `//` comments contain characters that some text functions
+    treat as line boundaries (form feed, vertical tab, FS/GS/RS, NEL, U+2028/9) or as blanks (NBSP, U+3000, BOM), followed
+    on the same line by text that looks like declarations: comments are comments up to the line feed"""
+    import gen
+    import props.c01 as c01
+    seed, _, _ = payload
+    rng = random.Random(seed * 1000003 + idx + 90001)
+    g = gen.Gen(rng, gen.Cfg(max_decls=3, max_members=4, max_depth=2, matlab_safe=True, typedef_same_ns=True))
+    m = gen.gen_module_inst(g)
+    want = gen.dump_module(m)
+    ref = gen.layout(rng, gen.lexemes(m), 'lines')
+    lines = ref.split("\n")
+    hidden = ["class Hq9 { Hq9(); };", "void hq9(int x);", "enum Eq9 { A, B };", "} }", "double q9;", "prose, not code (", "template<T = {int}>"]
+    dressed = []
+    for ln in lines:
+        if rng.random() < 0.5:
+            ln += "  // note" + rng.choice(EXOTIC) + " " + rng.choice(hidden) + rng.choice(["", rng.choice(EXOTIC) + "more"])
+        dressed.append(ln)
+    text = "\n".join(dressed)
+    res = dict(idx=idx, styles=["disk"], nlex=1, texts=[text], bad=None)
+    impl = c01.impl_parse_dump(text)
+    if impl != want:
+        res["bad"] = dict(kind="spec", what="text inside `//` comments changes the parse result", input=text, reference=ref, **c01.first_diff(want, impl))
+        return res
+    for sub in (False, True):
+        a, b = pybind_from_disk(ref, sub), pybind_from_disk(text, sub)
+        if a != b:
+            res["bad"] = dict(kind="spec", what="pybind (%s, file read from disk): text inside `//` comments changes the generated module"
+                              % ("wrap_submodule" if sub else "wrap"), input=text, reference=ref, expected=str(a)[:300], got=str(b)[:300])
+            return res
+    a, b = impl_matlab([ref], "m", [], False), impl_matlab([text], "m", [], False)
+    if a != b:
+        res["bad"] = dict(kind="spec", what="MATLAB (file read from disk): text inside `//` comments changes the toolbox",
+                          input=text, reference=ref, expected=str(a)[:300], got=str(b)[:300])
+    return res
+
+
 def run(ctx, n, seed_off=0, collect=True):
     res = fw.run_cases(case, [(ctx.seed + seed_off, None, 4)] * n)
+    res += fw.run_cases(disk_case, [(ctx.seed + seed_off + 9, None, 0)] * max(16, n // 3))
     res += fw.run_cases(multifile_case, [(ctx.seed + seed_off + 5, None, 0)] * max(12, n // 3))
     # operator overloads, dunder methods, enums and defaults in quantity: the places where two alternatives of the grammar
     # compete and a comment glued to a token can tip the longest match
